@@ -204,7 +204,64 @@ def s09_frames(ctx):
     return res
 
 
-STREAMS = [s09_frames]
+def s09_generated(ctx):
+    """translator validation: the REGENERATED `_validate` (compiled into gen_c09) vs the real static method on scripted validators"""
+    import_fractopo()
+    import itertools
+
+    from shapely.geometry import LineString, MultiLineString, Point
+
+    from fractopo.tval.trace_validation import Validation
+    from fractopo.tval.trace_validators import MAJOR_ERRORS
+
+    res = StreamResult("S09-generated", rule="regenerated Validation._validate (Lean, compiled) vs the real method on scripted validator classes: ALL combinations of "
+                       "LINESTRING_ONLY x geometry kind (line, empty line, multi-line, point) x verdict x fix outcome (new geometry / None / NotImplementedError) x "
+                       "allow_fix x ERROR (major / minor) x ERROR already present (exhaustive, 768 cases); non-trivial = the validator fails")
+    if ctx.gen is None:
+        res.note = "gen_c09 not built (a generated module is broken): skipped"
+        res.skipped["generated_driver_not_built"] = 1
+        return res
+    geoms = {0: LineString([(0, 0), (1, 1)]), 1: LineString(), 2: MultiLineString([[(0, 0), (1, 1)], [(3, 3), (4, 5)]]), 3: Point(1, 1), 9: LineString([(0, 0), (2, 2)])}
+    code_of = {id(v): k for k, v in geoms.items()}
+    cases, reqs = [], []
+    for ls_only, g, valid, fixk, allow_fix, err, present in itertools.product([True, False], [0, 1, 2, 3], [True, False], ["new", "none", "raise"], [True, False],
+                                                                                  ["GEOM TYPE MULTILINESTRING", "CUTS ITSELF", "NULL GEOMETRY", "V NODE"], [True, False]):
+        errs = (["SHARP TURNS", err] if present else ["SHARP TURNS"])
+        cases.append((ls_only, g, valid, fixk, allow_fix, err, errs))
+        isls = g in (0, 1)
+        reqs.append(f"vstep lsonly={int(ls_only)} isls={int(isls)} isempty={int(g == 1)} valid={int(valid)} fix={'9' if fixk == 'new' else '-'} err={enc(err)} "
+                    f"major={';'.join(enc(e) for e in MAJOR_ERRORS)} geom={g} errs={';'.join(enc(e) for e in errs)} allowfix={int(allow_fix)}")
+    resps = ctx.gen.parallel(reqs)
+    for (ls_only, g, valid, fixk, allow_fix, err, errs), req, resp in zip(cases, reqs, resps):
+        res.evaluations += 1
+        res.nontrivial += int(not valid)
+
+        class V:
+            LINESTRING_ONLY = ls_only
+            ERROR = err
+
+            @staticmethod
+            def validation_method(geom, **_):
+                return valid
+
+            @staticmethod
+            def fix_method(geom, **_):
+                if fixk == "raise":
+                    raise NotImplementedError
+                return geoms[9] if fixk == "new" else None
+
+        og, oe, oi = Validation._validate(geom=geoms[g], validator=V, current_errors=list(errs), allow_fix=allow_fix)
+        want = (code_of[id(og)], list(oe), bool(oi))
+        r = parse_resp(resp)
+        got = (int(r["geom"]), [dec(x) for x in r.get("errs", "").split(";") if x], r["ignore"] == "1")
+        if got != want:
+            res.disagreements.append(Disagreement("S09-generated", {"stream": "S09-generated", "request": req}, got, want, None,
+                                                  "regenerated _validate (Lean) and the Python method disagree: translator semantics wrong"))
+    res.samples = [{"request": reqs[5], "response": resps[5]}]
+    return res
+
+
+STREAMS = [s09_frames, s09_generated]
 
 
 def _rebuild(case):
@@ -226,6 +283,9 @@ def _rebuild(case):
 
 def replay(ctx, stream, case):
     import_fractopo()
+    if stream == "S09-generated":
+        r = s09_generated(ctx)
+        return r.disagreements[0] if r.disagreements else None
     gdf = _rebuild(case)
     r = worker((gdf, case["opts"]))
     res = StreamResult("replay")
